@@ -84,6 +84,25 @@ def swap(ctx):
     return True
 
 
+def biginstall(ctx):
+    """a published table is complete (sorted included) when it is installed"""
+    r = ctx.gotest("route", FILES, "^TestVerifC02BigInstall$", race=True, timeout=600, env={"VERIF_WRITES": ctx.pick(30, 200)})
+    if r.summary is None and ("panic:" in r.out or "fatal error:" in r.out):
+        ctx.violation({"sub": "swap", "crash": True, "where": "big-install"}, "the process crashed while large tables were built and installed:\n" + r.out[-3000:],
+                      replay={"sub": "swap-crash", "case": None})
+        return True
+    if "WARNING: DATA RACE" in r.out and "fabio/route." in r.out:
+        ctx.violation({"sub": "swap", "race": True, "where": "big-install"}, "data race between building/installing large tables and lookups:\n" + r.out[r.out.index("WARNING: DATA RACE"):][:3000],
+                      replay={"sub": "swap-race", "case": None})
+        return True
+    if not ctx.need_go_ok(r, "C02 big install"):
+        return False
+    ctx.log("big install: %d installs of 215-route tables, %d lookups on freshly loaded tables" % (r.summary["installs"], r.summary["lookups"]))
+    ctx.cover("biginstall", traces_validated_against_impl=1, evaluations=r.summary["lookups"])
+    ctx.take_failures(r, "swap")
+    return True
+
+
 def tcpswap(ctx):
     """table replacement vs connections on the tcp paths (the lookup of a connection comes from one table)"""
     r = ctx.gotest("proxy/tcp", ["proxy/tcp/c02_test.go", "proxy/tcp/c02_wire_test.go"], "^TestVerifC02TCPSwap$", race=True, timeout=600,
@@ -105,6 +124,8 @@ def run(ctx):
     if not hostile(ctx):
         return
     if not swap(ctx):
+        return
+    if not biginstall(ctx):
         return
     tcpswap(ctx)
 
